@@ -2,7 +2,7 @@
 import vfx
 from props import hist, histprop
 
-CONFIGS = ["ovl_mm", "ovl_mmm", "ovl_pp", "ovl_mp", "ovl_sub", "ovl_late", "alt_ovl", "ovl_alt", "ovl_ovl", "ovl_lo_ovl", "ovl_4", "ovl_pmpm"]
+CONFIGS = ["ovl_mm", "ovl_mmm", "ovl_pp", "ovl_mp", "ovl_sub", "ovl_psub", "ovl_late", "alt_ovl", "ovl_alt", "ovl_ovl", "ovl_lo_ovl", "ovl_4", "ovl_pmpm"]
 MUTATING = {"create_dir", "create_file", "append_file", "set_creation_time", "set_modification_time",
             "set_access_time", "remove_file", "remove_dir", "copy_file", "move_file", "move_dir"}
 OBSERVERS = {"exists", "metadata", "isfile", "isdir", "readdir", "openfile", "walkdir", "readtostring", "probe",
@@ -119,7 +119,7 @@ def known(d):
 P = histprop.HistProp(
     "C08", CONFIGS, typed=False, with_times=True, project=project, want_logs=True, quick_cases=8, thorough_cases=100, nops=(8, 18),
     oracle=oracle, known=known, after_prepop=after_prepop, finish=finish, allow_big=False, prepop_density=0.7,
-    corpus_cases=lambda: hist.lower_only_cases("c08", ["ovl_mm", "ovl_mmm", "ovl_pp", "ovl_alt", "ovl_lo_ovl"], stamp=True),
+    corpus_cases=lambda: hist.lower_only_cases("c08", ["ovl_mm", "ovl_mmm", "ovl_pp", "ovl_alt", "ovl_lo_ovl", "ovl_psub"], stamp=True),
     rule=("DIRECTED: every one-path operation on a non-empty directory, a file, an empty directory and a nested directory "
           "that ONLY a lower layer holds, on five stackings - among them an overlay whose lower layer is itself an overlay, on "
           "which a wrongly routed remove_file of a directory would SUCCEED; RANDOM: untyped histories (successful and failing calls alike) through overlays of 2-3 memory/physical layers, layers that "
